@@ -306,10 +306,11 @@ PROPS["C19"] = {"templates": PRELUDE + STD + STACK + ["20_plumbing.vrs", "30_sta
                 "assumptions": KANI_ASSUME + ["std::hash::RandomState::new is stubbed (zero keys) in the builder harnesses: HashMap iteration order is never observed by the builder"]}
 
 # C15: Verus (generic payload T) + the complete Kani harnesses at T = i64
-PROPS["C15"] = {"templates": PRELUDE + ["80_ec_order.vrs"] + MAIN, "expand": ["ec-core"], "extern": True, "steps": [run_verus_property, run_kani_property], "level": "proof",
+PROPS["C15"] = {"template_sets": [PRELUDE + ["80_ec_order.vrs"] + MAIN, PRELUDE + ["84_ec_operators.vrs"] + MAIN], "expand": ["ec-core"], "extern": True, "steps": [run_verus_multi, run_kani_property], "level": "proof",
                 "kani": KANI["C15"],
                 "explanation": "Verus: the real (hand-written and derived) cmp / partial_cmp / eq bodies of Score, Error, TestResult, TestResults and EcIndividual are proved against "
-                               "spec functions stated over the payload's own order (generic T), with lemmas that lawfulness is inherited; Kani: the compiled orderings at T = i64 "
+                               "spec functions stated over the payload's own order (generic T), with lemmas that lawfulness is inherited; GenomeScorer::apply returns EcIndividual { genome, test_results: scorer.score(genome) } "
+                               "for the genome its maker produced (specs/84_ec_operators.vrs); Kani: the compiled orderings at T = i64 "
                                "(complete) and the aggregation / scoring functions.",
                 "assumptions": KANI_ASSUME + ["vstd's PartialEqSpec / PartialOrdSpec / OrdSpec describe the payload's order", "Ordering::reverse contract (assumed)"]}
 
